@@ -60,6 +60,9 @@ class Timer(BaseComponent):
             if self.persist:
                 self.reset()
             else:
+                # (done, also where unregister() has nothing to do: a timer
+                # that is the root of its tree)
+                self.expiry = None
                 self.unregister()
             event.reduce_time_left(0)
         else:
